@@ -423,6 +423,9 @@ func par1Singles() []Mut {
 		for _, x := range u64grid([]uint64{10, 4, 7}[k]) {
 			ms = append(ms, Mut{fmt.Sprintf("e%d.size", k), x})
 		}
+		for x := uint64(0); x < 7; x++ {
+			ms = append(ms, Mut{fmt.Sprintf("e%d.name", k), x})
+		}
 	}
 	for _, n := range []uint64{1, 96, 97, 252, 253, 254, 300} {
 		ms = append(ms, Mut{"addentries", n})
